@@ -44,6 +44,12 @@ pub struct GenCfg {
     pub terminal_mode: u8,
     pub extra_cap: bool,
     pub hints: Vec<Hint>,
+    /// about 1 in 16 chunk sizes is replaced by a size near usize::MAX / usize::MAX/2
+    pub huge_chunks: bool,
+    /// smallest generated chunk size (1, or 0 where zero sizes are part of the domain)
+    pub min_chunk: usize,
+    /// adaptor kinds: pull 0..len elements before adapting
+    pub pre_pulls: bool,
 }
 
 impl GenCfg {
@@ -78,6 +84,9 @@ impl GenCfg {
             terminal_mode: 0,
             extra_cap: false,
             hints: vec![Hint::Exact, Hint::Inexact, Hint::Unbounded],
+            huge_chunks: false,
+            min_chunk: 1,
+            pre_pulls: false,
         }
     }
 }
@@ -141,19 +150,31 @@ fn how_of(sel: u8, raw: u16, len: usize, composite_ok: bool, only_composite: boo
     }
 }
 
+fn chunk_size(raw: u16, len: usize, cfg: &GenCfg) -> usize {
+    if cfg.huge_chunks && raw & 0xF == 0xF {
+        return match (raw >> 4) % 4 {
+            0 => usize::MAX,
+            1 => usize::MAX - 1,
+            2 => usize::MAX / 2 + 1,
+            _ => usize::MAX - len,
+        };
+    }
+    scale(raw, cfg.min_chunk, len + 3)
+}
+
 fn resolve(op: &RawOp, len: usize, cfg: &GenCfg) -> Op {
     match *op {
         RawOp::Next => Op::Next,
         RawOp::NextIdVal => Op::NextIdVal,
         RawOp::Chunk(n, t) => {
-            let n = scale(n, 1, len + 3);
+            let n = chunk_size(n, len, cfg);
             Op::Chunk {
                 n,
                 take: take_of(t, n),
             }
         }
         RawOp::BufNew(n) => Op::BufNew {
-            n: scale(n, 1, len + 3),
+            n: chunk_size(n, len, cfg),
         },
         RawOp::BufNext(t) => Op::BufNext {
             take: take_of(t, len + 3),
@@ -394,6 +415,18 @@ fn build_case(raw: &RawCase, cfg: &GenCfg) -> Case {
         .map(|t| t.iter().map(|o| resolve(o, len, cfg)).collect())
         .collect();
     if kind.wrapped() {
+        // buffered pulls on wrapped iterators allocate chunk_size slots by documentation: keep them small
+        for t in threads.iter_mut() {
+            for o in t.iter_mut() {
+                match o {
+                    Op::BufNew { n } if *n > 4096 => *n = 1 + (*n % 61),
+                    Op::Drain(How::Buf(n)) | Op::Drain(How::ForEach(n)) | Op::Drain(How::EnumForEach(n)) | Op::Drain(How::Fold(n)) if *n > 4096 => *n = 1 + (*n % 61),
+                    _ => {}
+                }
+            }
+        }
+    }
+    if kind.wrapped() {
         // on the ticket protocol a bare reservation or an out-of-turn `get` waits for a pull that a
         // sequential history never makes: not part of the sequence domain
         for t in threads.iter_mut() {
@@ -457,6 +490,7 @@ fn build_case(raw: &RawCase, cfg: &GenCfg) -> Case {
         range_start: if kind.is_range() { scale(raw.range_start, 0, 1000) } else { 0 },
         range_end: None,
         extra_cap: if cfg.extra_cap { (raw.extra_cap % 8) as usize } else { 0 },
+        pre: if cfg.pre_pulls && kind.adaptor() && raw.extra_cap & 1 == 1 { scale(raw.range_start, 0, len) } else { 0 },
         vseed: raw.vseed,
         threads,
         sched,
